@@ -186,10 +186,13 @@ func (x *Exec) collectEffects(fn *ssa.Function, blocks map[*ssa.BasicBlock]bool,
 				if callee != nil && inRepo(callee) && len(callee.Blocks) > 0 && depth < maxInlineDepth && !seen[callee] {
 					seen[callee] = true
 					x.collectEffects(callee, nil, eff, depth+1, seen)
-					// writes through pointer arguments that are local allocs
+					// writes through pointer arguments that are local allocs; closures passed as arguments
 					for _, a := range c.Args {
 						if al, ok := a.(*ssa.Alloc); ok && depth == 0 {
 							addWrite(al, true)
+						}
+						if _, isFn := types.Unalias(a.Type()).Underlying().(*types.Signature); isFn && depth == 0 {
+							x.effectsOfFuncValue(fn, a, eff, depth, seen, addWrite)
 						}
 					}
 					if mc, ok := c.Value.(*ssa.MakeClosure); ok {
@@ -205,6 +208,8 @@ func (x *Exec) collectEffects(fn *ssa.Function, blocks map[*ssa.BasicBlock]bool,
 					// call through a function value: look for closures bound in this function
 					if depth == 0 {
 						x.effectsOfFuncValue(fn, c.Value, eff, depth, seen, addWrite)
+					} else if _, isParam := c.Value.(*ssa.Parameter); isParam {
+						// a function-valued parameter: its effects are accounted for where the closure is passed (depth 0)
 					} else {
 						eff.unknown = true
 					}
@@ -527,6 +532,15 @@ func (x *Exec) resolveLocal(fr *Frame, st *State, b *ssa.BasicBlock, name string
 				}
 			case *ssa.DebugRef:
 				if v.Object() != nil && v.Object().Name() == name {
+					if !v.IsAddr {
+						// an address-taken variable lives in its cell: the value named by an assignment's debug
+						// reference may be stale, read the cell instead
+						if cell := allocOfObject(fr.fn, v.Object()); cell != nil {
+							if cv, ok := fr.regs[cell]; ok && cv.K == VPtr {
+								return x.loadNoCheck(st, cv)
+							}
+						}
+					}
 					if val, ok := fr.regs[v.X]; ok {
 						if v.IsAddr {
 							if val.K == VPtr {
@@ -542,6 +556,30 @@ func (x *Exec) resolveLocal(fr *Frame, st *State, b *ssa.BasicBlock, name string
 					if val, ok := fr.regs[v]; ok && val.K == VPtr {
 						return x.loadNoCheck(st, val)
 					}
+				}
+			}
+		}
+	}
+	return nil
+}
+
+// allocOfObject finds the cell of an address-taken source variable: the Alloc some debug reference names as its address.
+func allocOfObject(fn *ssa.Function, obj types.Object) ssa.Value {
+	for _, b := range fn.Blocks {
+		for _, in := range b.Instrs {
+			if d, ok := in.(*ssa.DebugRef); ok && d.IsAddr && d.Object() == obj {
+				if a, ok := d.X.(*ssa.Alloc); ok {
+					return a
+				}
+			}
+		}
+	}
+	// named results and captured variables have no address debug reference: match the Alloc by name and type
+	if v, ok := obj.(*types.Var); ok {
+		for _, b := range fn.Blocks {
+			for _, in := range b.Instrs {
+				if a, ok := in.(*ssa.Alloc); ok && a.Comment == obj.Name() && a.Pos() == v.Pos() {
+					return a
 				}
 			}
 		}
